@@ -1188,9 +1188,12 @@ func (d *indexData) newMatchTree(q query.Q, opt matchTreeOpt) (matchTree, error)
 			}, nil
 		}
 
+		// The tree of the regexp itself comes first. The pre-filter distilled
+		// from it (wrapped in a noVisitMatchTree) can contain regexpMatchTrees
+		// for short literals of the pattern; those must not be used.
 		var regexpMT *regexpMatchTree
 		visitMatchTree(subMT, func(mt matchTree) {
-			if t, ok := mt.(*regexpMatchTree); ok {
+			if t, ok := mt.(*regexpMatchTree); ok && regexpMT == nil {
 				regexpMT = t
 			}
 		})
